@@ -683,6 +683,17 @@ def check_purge_first(res, prop, cm, roles, m, top):
             q_before = e
             break
     ok = first_purge is not None and (first_touch is None or first_purge < first_touch) and q_before is None
+    if not ok and first_purge is None:
+        # nothing to purge: the path established that the container (ttl list / key map) is empty before it touched the index
+        for pos, (k, i) in enumerate(top.order):
+            if first_touch is not None and pos >= first_touch:
+                break
+            if k == 'cond' and top.conds[i][0] in ('AUX_NONEMPTY', 'NONEMPTY') and top.conds[i][2] is False:
+                seen_q = q_before is not None and top.events.index(q_before) < next((j for j, e in enumerate(top.events)
+                                                                                      if e[0] == 'cond' and e[1] == top.conds[i][4]), 10 ** 9)
+                if not seen_q:
+                    ok = True
+                break
     res.ob('R-PURGE-FIRST', ok=ok)
     if not ok:
         site = q_before[2] if q_before else site_of_seg(top, m)
